@@ -145,7 +145,7 @@ def pickle_classes():
 
 def shape_cases():
   out = []
-  for shape in list(shapes()) + ['pickle_init', 'pickle_new', 'pickle_nt', 'with_method', 'equal_objects']:
+  for shape in list(shapes()) + ['pickle_init', 'pickle_new', 'pickle_nt', 'with_method', 'borrowed_method', 'equal_objects']:
     for api in ('configurable', 'register', 'external'):
       for scoped in (False, True):
         out.append({'dom': 'gin', 'kind': 'shape', 'shape': shape, 'api': api, 'scoped': scoped, 'ops': []})
@@ -165,8 +165,20 @@ def gen_history(rng):
       base['_decorated'] = rng.choice([1, 2, 3])   # functools.wraps layers between gin and the function
     if r < 0.15:
       base.update(name='1bad', nameValid=False, _name_arg='1bad', _pyname='late%d' % obj)
-    elif r < 0.25:
+    elif r < 0.22:
       base.update(module='bad module', moduleValid=False, _explicit_module='bad module')
+    elif r < 0.3:
+      # a dotted name: the object's own module is not used, an explicitly given one is - and is validated
+      dotted = 'pkg.' + base['name']
+      base.update(name=dotted, _name_arg=dotted, _pyname='late%d' % obj)
+      rr = rng.random()
+      if rr < 0.4:
+        bad = rng.choice(['', '9bad', 'bad module', 'a..b'])
+        base.update(module=bad, moduleValid=False, _explicit_module=bad)
+      elif rr < 0.7:
+        base.update(module='xm', _explicit_module='xm', _selector='xm.' + dotted)
+      else:
+        base.update(module=None, _selector=dotted)
     elif r < 0.45:   # a different object under an existing full name
       tgt = rng.choice(regs)
       base.update(name=tgt['name'], module=tgt['module'], _explicit_module=tgt['module'], _name_arg=tgt['name'],
@@ -217,6 +229,15 @@ def run_shape(case):
     exec('class WM:\n  """doc wm"""\n  def __init__(self, a, b=2):\n    self.a, self.b = a, b\n'  # pylint: disable=exec-used
          '  @gin.register\n  def meth(self, k=1):\n    return k\n', g)
     orig = g['WM']
+  elif shape == 'borrowed_method':
+    # Net holds, under the function's own name, a Gin-registered method that belongs to another class whose
+    # name ends with Net's: it is not a method *of Net*, so Net is built exactly (no dynamic subclass)
+    g = {'gin': gin, '__name__': 'bm'}
+    exec('class ResNet:\n  """doc resnet"""\n  def __init__(self, a, b=2):\n    self.a, self.b = a, b\n'  # pylint: disable=exec-used
+         '  @gin.register\n  def forward(self, k=1):\n    return k\n'
+         'class Net:\n  """doc net"""\n  def __init__(self, a, b=2):\n    self.a, self.b = a, b\n'
+         '  forward = ResNet.forward\n', g)
+    orig = g['Net']
   else:
     orig = table[shape]
   is_class = inspect.isclass(orig)
